@@ -206,9 +206,15 @@ pub fn ref_len_range(kind: Kind) -> (usize, usize) {
 
 /// Encode a token sequence (must be legal for `kind`) as a bare stream declaring `total` bytes.
 pub fn encode(kind: Kind, tokens: &[Tok], total: usize) -> Vec<u8> {
+    encode_ext(kind, tokens, total, false)
+}
+
+/// `extended`: for LZ11, use the extended-size header (zero 24-bit size followed by a 32-bit size)
+/// even when the size would fit in 24 bits - legal, and what an encoder for large files emits.
+pub fn encode_ext(kind: Kind, tokens: &[Tok], total: usize, extended: bool) -> Vec<u8> {
     let mut out = Vec::new();
     out.push(if kind == Kind::Lz10 { 0x10 } else { 0x11 });
-    if kind == Kind::Lz11 && (total == 0 || total >= 1 << 24) {
+    if kind == Kind::Lz11 && (total == 0 || total >= 1 << 24 || extended) {
         out.extend_from_slice(&[0, 0, 0]);
         out.extend_from_slice(&(total as u32).to_le_bytes());
     } else {
